@@ -9,7 +9,8 @@ Real code (run over harness.fakecourier, virtual clock):
   family 'own' : courier_worker.WorkerPool (several pools over shared Worker singletons):
                  _acquire_all, release_all, next_idle_worker, Worker.release(pool), run, call_and_wait,
                  orchestrate.as_completed (exhausted / raising task / closed early), with workers losing
-                 capacity (a hung call) as the capacity/liveness oracle.
+                 capacity (a hung call) and dying / being pronounced dead (before, during — by the task itself —
+                 and after acquisition) as the capacity/liveness oracle.
 Model: lean/MlModel/Model/Registry.lean, Owner.lean; theorems: lean/MlModel/Properties/C20.lean.
 `extra`: exhaustive exploration of all interleavings of small configurations of the Owner LTS in the Lean
 driver (a *test* of the model / theorem hypotheses), the racy orders of F13 / F14 executed by hand on the
@@ -38,7 +39,8 @@ ASSUMPTIONS = [
 ]
 RULE = ('live: small-exhaustive event sequences (length<=3 quick / <=4 thorough) over a 15-letter alphabet on 2 addresses '
         'and 2 clients, then random sequences of length<=25, clock start 50 or 1000; own: random sequences (<=14 ops) of '
-        '_acquire_all/release_all/next_idle_worker/release/run/call_and_wait/as_completed/hang/unhang from 2-3 pools over '
+        '_acquire_all/release_all/next_idle_worker/release/run/call_and_wait/as_completed/hang/unhang/die/revive (tasks that '
+        'raise and tasks that pronounce a worker dead while they run) from 2-3 pools over '
         '2-3 shared workers, plus all ordered pairs of a small op alphabet; non-trivial = live: some is_alive observed after '
         'an unregister or a late delivery / own: some worker owned by a pool other than the acting one at some op; '
         'distinct = distinct canonical case JSON')
@@ -95,19 +97,38 @@ def rand_live(rng):
   return live_case(now, evs, (rng.choice(THRS), rng.choice(THRS)))
 
 
+def task_of(o):
+  """Task of run / call_and_wait: 'ok' | 'raise' | 'kill:<w>' | 'killraise:<w>' (older cases: `raises`)."""
+  return o.get('task') or ('raise' if o.get('raises') else 'ok')
+
+
+def norm_task(x):
+  return x if isinstance(x, str) else ('raise' if x else 'ok')
+
+
+def task_raises(t):
+  return t == 'raise' or t.startswith('killraise')
+
+
+def task_kills(t):
+  return int(t.split(':')[1]) if t.startswith('kill') else None
+
+
+def op_kills(o):
+  """The worker an operation's task(s) pronounce dead, if any (at most one kill task per operation)."""
+  if o['op'] in ('run', 'call_and_wait'):
+    return task_kills(task_of(o))
+  if o['op'] == 'as_completed' and not never_started(o):
+    ks = [task_kills(norm_task(t)) for t in o['tasks']]
+    ks = [k for k in ks if k is not None]
+    return ks[0] if ks else None
+  return None
+
+
 def own_case(nworkers, pw, ops):
-  """Adds the capacity oracle (`usable`) in force at each op, from the hang/unhang ops before it."""
-  hung = set()
-  out = []
-  for o in ops:
-    o = dict(o)
-    if o['op'] == 'hang':
-      hung.add(o['w'])
-    elif o['op'] == 'unhang':
-      hung.discard(o['w'])
-    o['usable'] = [w not in hung for w in range(nworkers)]
-    out.append(o)
-  return dict(fam='own', nworkers=nworkers, pw=pw, ops=out)
+  """The capacity/liveness oracle is environment state driven by the ops themselves
+  (hang/unhang: capacity; die/revive and kill tasks: liveness); nothing is precomputed here."""
+  return dict(fam='own', nworkers=nworkers, pw=pw, ops=[dict(o) for o in ops])
 
 
 def rand_own_op(rng, nworkers, pw):
@@ -123,17 +144,29 @@ def rand_own_op(rng, nworkers, pw):
     return dict(op='next_idle', p=p, ws=sub or list(ws), acq=rng.random() < 0.7)
   if r < 0.54:
     return dict(op='release', p=p, w=rng.choice(ws))
+  def rand_task(kill_ok=True):
+    x = rng.random()
+    if kill_ok and x < 0.30:     # the task pronounces a worker of the pool dead while it runs
+      return rng.choice(['kill', 'killraise']) + f':{rng.choice(ws)}'
+    return 'raise' if x < 0.55 else 'ok'
   if r < 0.66:
-    return dict(op='run', p=p, raises=rng.random() < 0.4)
-  if r < 0.76:
-    return dict(op='call_and_wait', p=p, raises=rng.random() < 0.3)
-  if r < 0.90:
+    return dict(op='run', p=p, task=rand_task())
+  if r < 0.74:
+    return dict(op='call_and_wait', p=p, task=rand_task())
+  if r < 0.86:
     nt = rng.randrange(0, 5)
-    return dict(op='as_completed', p=p, tasks=[rng.random() < 0.25 for _ in range(nt)],
-                take=rng.choice([None, None, 0, 1, 2]), ignore=rng.random() < 0.3)
-  if r < 0.96:
+    tasks = [rand_task(False) for _ in range(nt)]
+    if nt and rng.random() < 0.45:
+      tasks[rng.randrange(nt)] = rand_task()       # at most one kill task
+    return dict(op='as_completed', p=p, tasks=tasks,
+                take=rng.choice([None, None, 0, 1, 2]), ignore=rng.random() < 0.4)
+  if r < 0.90:
     return dict(op='hang', w=rng.randrange(nworkers))
-  return dict(op='unhang', w=rng.randrange(nworkers))
+  if r < 0.93:
+    return dict(op='unhang', w=rng.randrange(nworkers))
+  if r < 0.98:
+    return dict(op='die', w=rng.randrange(nworkers))
+  return dict(op='revive', w=rng.randrange(nworkers))
 
 
 def rand_own(rng):
@@ -156,7 +189,11 @@ def own_alphabet():
            dict(op='call_and_wait', p=p, raises=False),
            dict(op='as_completed', p=p, tasks=[False, True, False], take=None, ignore=False),
            dict(op='as_completed', p=p, tasks=[False, False], take=1, ignore=False)]
-  al += [dict(op='hang', w=0), dict(op='unhang', w=0)]
+  al += [dict(op='hang', w=0), dict(op='unhang', w=0), dict(op='die', w=0), dict(op='die', w=1),
+         dict(op='revive', w=0), dict(op='run', p=0, task='killraise:1'), dict(op='run', p=0, task='kill:0'),
+         dict(op='as_completed', p=0, tasks=['ok', 'kill:0', 'ok'], take=None, ignore=True),
+         dict(op='as_completed', p=1, tasks=['killraise:1'], take=None, ignore=False),
+         dict(op='call_and_wait', p=1, task='kill:0')]
   return al
 
 
@@ -269,18 +306,35 @@ def _release(worker, pool):
       worker.release()
 
 
+ENV_OPS = ('hang', 'unhang', 'die', 'revive')
+START = 1_000_000_000.0      # virtual clock of the own family
+THRESHOLD = 100_000_000      # heartbeat threshold: a registered worker stays fresh for the whole case,
+                             # an unregistered one (last = 0) is not alive (START - 0 > THRESHOLD)
+
+
+def _kill_task(address, raises):
+  """Runs *at the worker* (same process): the worker is pronounced dead while the task executes,
+  which is what the server's heartbeat(is_alive=False) handler does to the registry."""
+  from ml_metrics._src.utils import courier_utils
+  courier_utils.worker_registry().unregister(address)
+  if raises:
+    raise RuntimeError('worker crashed')
+  return 0
+
+
 def run_own(case):
   from harness import fakecourier
   from harness.lib_courier_env import CourierEnv
-  env = CourierEnv(mode='inline', start=1_000_000.0, spin_tick=1.0)
-  cw, lazy_fns = env.courier_worker, None
-  from ml_metrics._src.chainables import lazy_fns  # noqa: F811
+  env = CourierEnv(mode='inline', start=START, spin_tick=1.0)
+  cw = env.courier_worker
+  from ml_metrics._src.chainables import lazy_fns
   try:
     n = case['nworkers']
+    reg = env.courier_utils.worker_registry()
     for w in range(n):
       env.server(f'w{w}')
-    # a huge threshold keeps every worker alive on the virtual clock: capacity is the only oracle
-    workers = [cw.Worker(env.addr(f'w{w}'), heartbeat_threshold_secs=10**9) for w in range(n)]
+      reg.register(env.addr(f'w{w}'), env.clock.now)      # the worker announced itself: alive
+    workers = [cw.Worker(env.addr(f'w{w}'), heartbeat_threshold_secs=THRESHOLD) for w in range(n)]
     pools = [cw.WorkerPool([workers[w] for w in ws]) for ws in case['pw']]
     for p, ws in zip(pools, case['pw']):
       assert all(a is workers[w] for a, w in zip(p.all_workers, ws)), 'pools must share the Worker singletons'
@@ -291,10 +345,16 @@ def run_own(case):
           locked=[bool(w.is_locked()) for w in workers],
           locked_by=[[bool(w.is_locked(p)) for w in workers] for p in pools],
           available=[[bool(w.is_available(p)) for w in workers] for p in pools],
-          acquired=[[idx[id(w)] for w in p.acquired_workers] for p in pools])
+          acquired=[[idx[id(w)] for w in p.acquired_workers] for p in pools],
+          dead=[reg.get(w.address) == 0 for w in workers])
 
-    ok_task = lambda: lazy_fns.trace(len)([1, 2])      # noqa: E731
-    bad_task = lambda: lazy_fns.trace(len)(0.5)        # noqa: E731   raises TypeError at the worker
+    def make_task(t):
+      if t == 'ok':
+        return lazy_fns.trace(len)([1, 2])
+      if t == 'raise':
+        return lazy_fns.trace(len)(0.5)                 # TypeError at the worker
+      return lazy_fns.trace(_kill_task)(env.addr(f'w{task_kills(t)}'), task_raises(t))
+
     obs = []
     for o in case['ops']:
       op = o['op']
@@ -307,6 +367,10 @@ def run_own(case):
           fakecourier.revive(a)
       elif op == 'unhang':
         fakecourier.fail_hung(env.addr(f"w{o['w']}"))
+      elif op == 'die':
+        reg.unregister(env.addr(f"w{o['w']}"))            # pronounced dead (heartbeat(is_alive=False))
+      elif op == 'revive':
+        reg.register(env.addr(f"w{o['w']}"), env.clock.now)
       else:
         pool = pools[o['p']]
         env.clock.deadline = env.clock.now + 1500
@@ -321,9 +385,9 @@ def run_own(case):
         elif op == 'release':
           _release(workers[o['w']], pool)
         elif op == 'run':
-          outcome, _ = _outcome(lambda: pool.run(bad_task() if o['raises'] else ok_task()))
+          outcome, _ = _outcome(lambda: pool.run(make_task(task_of(o))))
         elif op == 'call_and_wait':
-          outcome, _ = _outcome(lambda: pool.call_and_wait(bad_task() if o['raises'] else ok_task()))
+          outcome, _ = _outcome(lambda: pool.call_and_wait(make_task(task_of(o))))
         elif op == 'as_completed':
           if o['take'] == 0:
             env.orchestrate.as_completed(pool, iter(())).close()     # never started: runs nothing
@@ -332,7 +396,7 @@ def run_own(case):
             # when no worker can be obtained as_completed spins; the virtual deadline (set above for every
             # op) turns that into a TimeoutError, after which its `finally` still has to release
             gen = env.orchestrate.as_completed(
-                pool, (bad_task() if r else ok_task() for r in o['tasks']), ignore_failures=o['ignore'])
+                pool, (make_task(norm_task(t)) for t in o['tasks']), ignore_failures=o['ignore'])
             try:
               if o['take'] is None:
                 for _ in gen:
@@ -366,8 +430,8 @@ def model_requests(case):
   ops = []
   for o in case['ops']:
     op = o['op']
-    if op in ('hang', 'unhang'):
-      m = dict(op='next_idle', p=0, ws=[], acq=False)    # placeholder without any pool-level effect
+    if op in ENV_OPS:
+      m = dict(op=op, w=o['w'])                # capacity / liveness oracle: environment state of the model run
     elif op == 'release':
       m = dict(op='release', p=o['p'], w=o['w'], checked=True)
     elif op == 'run':
@@ -381,7 +445,9 @@ def model_requests(case):
            else dict(op='as_completed', p=o['p'], body=[]))
     else:
       m = {k: v for k, v in o.items() if k in ('op', 'p', 'ws', 'n', 'acq')}
-    m['usable'] = o['usable']
+    k = op_kills(o)
+    if k is not None:
+      m['kills'] = k
     ops.append(m)
   return [dict(model='owner', mode='seq', nworkers=case['nworkers'], pw=case['pw'], ops=ops)]
 
@@ -411,7 +477,7 @@ def model_obs(case, resps):
   for o, m in zip(case['ops'], r['obs']):
     op = o['op']
     _cover('own_ops', op)
-    if op not in ('hang', 'unhang'):
+    if op not in ENV_OPS:
       foreign = any(m['locked_by'][q][w] for q in range(len(case['pw'])) if q != o['p']
                     for w in range(case['nworkers']))
       _cover('own_ops_with_foreign_owner_after', f'{op}/{foreign}')
@@ -421,14 +487,18 @@ def model_obs(case, resps):
     elif op == 'next_idle':
       res = m['results'][0]
     elif op == 'run':
-      found = m['results'][0] != 'none'
-      outcome = 'err:ValueError' if not found else ('err:Exception' if o['raises'] else 'ok')
+      found = (not m['not_started']) and m['results'][0] != 'none'
+      outcome = 'err:ValueError' if not found else ('err:Exception' if task_raises(task_of(o)) else 'ok')
+      _cover('own_run', 'not-started(no live worker)' if m['not_started'] else ('found' if found else 'none-obtainable'))
     elif op == 'call_and_wait':
-      outcome = 'err:Exception' if o['raises'] else 'ok'
+      outcome = 'err:Exception' if task_raises(task_of(o)) else 'ok'
     elif op == 'as_completed':
       outcome = None       # not part of the property; only the ownership state is compared
+    if op in RELEASING and not never_started(o):
+      held_dead = any(m['dead'][w] for w in case['pw'][o['p']])
+      _cover('own_releasing_ops_with_dead_pool_worker_at_exit', f'{op}/{held_dead}')
     out.append(dict(res=res, outcome=outcome, locked=m['locked'], locked_by=m['locked_by'],
-                    available=m['available'], acquired=m['acquired'], stuck=m['stuck']))
+                    available=m['available'], acquired=m['acquired'], dead=m['dead'], stuck=m['stuck']))
   return dict(obs=out)
 
 
@@ -444,7 +514,7 @@ def compare(impl, model):
     else:
       if y.get('stuck'):
         return f'op {i}: model thread did not finish the operation'
-      for k in ('locked', 'locked_by', 'available', 'acquired', 'res'):
+      for k in ('locked', 'locked_by', 'available', 'acquired', 'dead', 'res'):
         if x[k] != y[k]:
           return f'op {i}: {k} impl={x[k]} model={y[k]}'
       if y['outcome'] is not None and x['outcome'] != y['outcome']:
@@ -524,6 +594,7 @@ def _check_snapshot(s, npools, where):
 def oracle_own(case, obs):
   npools = len(case['pw'])
   prev = [[] for _ in range(npools)]
+  prev_dead = [False] * case['nworkers']
   for i, (o, s) in enumerate(zip(case['ops'], obs['obs'])):
     op = o['op']
     for j, m in enumerate(s['mid']):
@@ -536,18 +607,37 @@ def oracle_own(case, obs):
     bad = _check_snapshot(s, npools, f'after op {i} ({op})')
     if bad:
       return bad
-    if op not in ('hang', 'unhang'):
+    if op not in ENV_OPS:
       p = o['p']
       for q in range(npools):
         if q != p and sorted(s['acquired'][q]) != sorted(prev[q]):
           return f'op {i} ({op}) of pool {p} changed what pool {q} owns: {prev[q]} -> {s["acquired"][q]}'
-      if op in RELEASING and not never_started(o) and s['outcome'] != 'never-started' and s['acquired'][p]:
-        return f'op {i} ({op}, outcome {s["outcome"]}) left pool {p} with acquired workers {s["acquired"][p]}'
+      if op in RELEASING and not never_started(o) and s['outcome'] != 'never-started':
+        # "when the pool-level operation returns or raises, none of ITS workers remains acquired" — dead
+        # workers included: is_locked(pool), acquired_workers and the availability to every other pool
+        if op == 'run' and all(prev_dead[w] for w in case['pw'][p]):
+          # run() on a pool without any live worker fails in wait_until_alive() before it starts
+          # (nothing is acquired by it); what the pool held from earlier operations is not run()'s to release
+          if sorted(s['acquired'][p]) != sorted(prev[p]):
+            return f'op {i} (run that could not start: no live worker) changed what pool {p} owns'
+        else:
+          held = [w for w in range(case['nworkers']) if s['locked_by'][p][w]]
+          if held or s['acquired'][p]:
+            dead = [w for w in held if s['dead'][w]]
+            return (f'op {i} ({op}, outcome {s["outcome"]}) left pool {p} with acquired workers '
+                    f'{sorted(set(held) | set(s["acquired"][p]))} (dead among them: {dead})')
+          for w in case['pw'][p]:
+            for q in range(npools):
+              if q != p and not s['available'][q][w] and not any(
+                  s['locked_by'][r][w] for r in range(npools) if r != p):
+                return (f'op {i} ({op}) of pool {p} finished, yet its worker {w} is not available to pool {q} '
+                        f'(dead: {s["dead"][w]})')
     else:
       for q in range(npools):
         if sorted(s['acquired'][q]) != sorted(prev[q]):
           return f'op {i} ({op}) changed what pool {q} owns'
     prev = [list(x) for x in s['acquired']]
+    prev_dead = list(s['dead'])
   return None
 
 
@@ -564,7 +654,7 @@ def nontrivial(case, obs):
     return False
   prev = [[] for _ in case['pw']]
   for o, s in zip(case['ops'], obs['obs']):
-    if o['op'] not in ('hang', 'unhang') and any(prev[q] for q in range(len(prev)) if q != o['p']):
+    if o['op'] not in ENV_OPS and any(prev[q] for q in range(len(prev)) if q != o['p']):
       return True
     prev = s['acquired']
   return False
